@@ -1,4 +1,5 @@
 import Ekit.Props.C01
+import Ekit.Props.C01Rev
 open Ekit.RB
 #print axioms c01_rbtree_step_refines
 #print axioms c01_rbtree_run_refines
@@ -19,3 +20,17 @@ open Ekit.RB
 #print axioms c01_cmpAsc_lawful
 #print axioms c01_cmpDesc_lawful
 #print axioms c01_cmpHalf_lawful
+-- review additions (Ekit/Props/C01Rev.lean)
+#print axioms c01_treemap_failed_call_unchanged
+#print axioms c01_treemap_put_ok
+#print axioms c01_multimap_failed_call_unchanged
+#print axioms c01_linked_failed_call_unchanged
+#print axioms c01_treemap_run_refines_empty
+#print axioms c01_treeset_run_refines_empty
+#print axioms c01_multimap_run_refines_empty
+#print axioms c01_treemap_keys_values_len
+#print axioms c01_spec_step_sorted
+#print axioms c01_spec_unique
+#print axioms c01_spec_map_laws
+#print axioms c01_linked_model_keys_order
+#print axioms c01_linked_reachable_inv
